@@ -18,7 +18,7 @@ ASSUMPTIONS = ["perturbations stay four orders of magnitude away from the built-
                "'same function' rational cases are refinements in homogeneous form or constant weights"]
 
 RELATIONS = ["same", "insert", "elevate", "both", "ratconst", "perturb-big", "perturb-small", "weights", "interval", "unrelated", "refined-perturbed",
-             "cross-refined", "mult-swapped"]
+             "cross-refined", "mult-swapped", "perturb-large-scale"]
 
 
 def refine(rc, rng, how):
@@ -70,6 +70,25 @@ def gen_case(rng, idx, tier):
             B["P"] = [list(p) for p in B["P"]]
             B["P"][i][rng.randrange(len(B["P"][i]))] += eps
         equal = rel == "perturb-small"
+    elif rel == "perturb-large-scale":
+        # the tolerance is absolute (1e-9 on control points): on coordinates of size 1e3..1e6 a change of 1e-7..1e-5 is
+        # still a different curve
+        sc = F(10) ** rng.choice([3, 6])
+        scale = (lambda p: [c * sc for c in p]) if not scal else (lambda p: p * sc)
+        A = dict(A, P=[scale(p) for p in A["P"]])
+        ra = lib.case_rc(A["U"], A["P"], A["W"])
+        base = refine(ra, rng, "insert") if rng.random() < 0.4 else ra
+        B = rc_to_case(base, scal)
+        i = rng.randrange(len(B["P"]))
+        eps = F(1, 10 ** rng.choice([5, 6, 7]))
+        if scal:
+            B["P"] = list(B["P"])
+            B["P"][i] = B["P"][i] + eps
+        else:
+            B["P"] = [list(p) for p in B["P"]]
+            B["P"][i][rng.randrange(len(B["P"][i]))] += eps
+        nt = "frac"
+        equal = False
     elif rel in ("cross-refined", "mult-swapped"):
         # both operands are refinements of one curve, raised at two different existing knots: same degree, same number
         # of control points, same distinct knots, different multiplicities
